@@ -30,7 +30,7 @@ CR = "\r"
 LS = " "
 EMO = "\U0001f600"
 
-SUBJECT_ALPHABET = ["a", "b", "1", LF, CR, LS, "|", "&", "~", "-", "[", ".", EMO]
+SUBJECT_ALPHABET = ["a", "b", "1", LF, CR, LS, "|", "&", "~", "-", "[", ".", EMO, "\\"]
 
 # one-node atoms: literals of the alphabet that are NormalChar, escaped metacharacters
 # (those of the alphabet first), and "."
